@@ -39,6 +39,17 @@ CLAIMED_FX = True
 # the discipline flags are computed for THIS variant, so that a tree that has lost the repair is reported through the stale
 # read it produces (signature F1_SIG, a violation) and not as a flood of model-vs-code mismatches.
 FX = CLAIMED_FX
+# Same for the rule of the per-individual revert: "where" = torch.where(mask, old, cur) (since fe0cadd; Coq instance xsem_where),
+# "blend" = old*mask + cur*~mask (before; xsem).  The theorems are generic in the rule (hypothesis F_mix); the executable instance
+# of the tie is the one the tree under test has, and a tree that blends is reported through the stale NaN it produces.
+CLAIMED_MIX = "where"
+MIX = CLAIMED_MIX
+SEM = {"where": "xsem_where", "blend": "xsem"}
+F2_SIG = "partial-revert-nonfinite-stale"
+
+
+def checker():
+    return f"(check_case_with {SEM[MIX]} {'true' if FX else 'false'})"
 
 HEADER = ("From Coq Require Import ZArith List Bool.\nFrom Leaspy Require Import State.StateModel State.StateExec.\n"
           "Import ListNotations.\nOpen Scope Z_scope.\nOpen Scope nat_scope.\n")
@@ -63,9 +74,25 @@ def settle_variant(run: Run):
                        "auto_fork_type=None (the rule before 27ac519): the theorems of Props/C01.v are about the rule that drops it and "
                        "do not speak about this code.  The tie of this run is made against the model variant fx=false so that the "
                        "search reports the stale read itself.", kind="broken-correspondence")
+    global MIX
+    mix, mdetail = T.detect_revert_mix_variant()
+    run.extra["revert_mix_variant"] = mdetail
+    if mix is None:
+        MIX = CLAIMED_MIX
+        run.broken("translate:State.revert", "the rule combining forked and current values in State.revert(subset) was not recognised "
+                   f"(source shape and probes on a real State must agree): {json.dumps(mdetail, default=str)}", kind="broken-translation")
+    else:
+        MIX = mix
+        if mix != CLAIMED_MIX:
+            run.broken("tie:State.revert", "State.revert(subset) of the tree under test blends (old*mask + cur*~mask, the rule before fe0cadd): "
+                       "a non-finite value on the discarded side leaks into the kept one, F_mix does not hold for non-finite values and the "
+                       "examples of Props/C01.v (xsem_where) do not describe this code.  The tie of this run is made against xsem so that the "
+                       "search reports the stale read itself.", kind="broken-correspondence")
+    run.count("revert_mix_variant", {"where": "selects: torch.where(mask, old, cur) (since fe0cadd)",
+                                     "blend": "blends: old*mask + cur*~mask (before fe0cadd)", None: "not recognised"}[mix])
     run.count("setitem_variant", {True: "drops the fork on an un-forked assignment (since 27ac519)",
                                   False: "keeps the fork on an un-forked assignment (before 27ac519)", None: "not recognised"}[fx])
-    return fx
+    return fx, mix
 
 
 def classify(run: Run, G, sess, what_prefix=""):
@@ -76,12 +103,13 @@ def classify(run: Run, G, sess, what_prefix=""):
         if "mask" in taint:
             run.count("oracle", "stale-after-misused-partial-revert (precondition violated, not a failure)")
             continue
-        sig = F1_SIG if "unforked" in taint else "stale-read"
+        sig = F1_SIG if "unforked" in taint else F2_SIG if ("nonfinite-mask" in taint and MIX != CLAIMED_MIX) else "stale-read"
         prefix = ops[: mm["step"] + 1]
 
         def still(cand, _sig=sig):
             s2 = T.run_ops(G, cand, fx=FX)
-            return any(("unforked" in m["taint"]) == (_sig == F1_SIG) and "mask" not in m["taint"] for m in s2.mismatches)
+            return any(("unforked" in m["taint"]) == (_sig == F1_SIG) and ("nonfinite-mask" in m["taint"] or _sig != F2_SIG)
+                       and "mask" not in m["taint"] for m in s2.mismatches)
         small = T.shrink(G, prefix, still) if len(prefix) <= 60 else prefix
         s3 = T.run_ops(G, small, fx=FX)
         m3 = next((m for m in s3.mismatches if "mask" not in m["taint"]), mm)
@@ -94,6 +122,8 @@ def classify(run: Run, G, sess, what_prefix=""):
         run.fail(sig, what_prefix + (
             "a revert after an assignment made with auto_fork_type=None restores a stale _last_fork: a cached derived value no longer "
             "matches the independent values" if sig == F1_SIG else
+            "a per-individual revert applied while a cached value of the discarded side is inf/NaN leaves NaN in the kept rows of a cached "
+            "derived value (old*mask + cur*~mask is not a selection): the read differs from the from-scratch evaluation" if sig == F2_SIG else
             "a read returns a value different from the from-scratch evaluation on the current independent values"),
             dict(graph=G.to_json(), ops=small, node=m3["node"], state=m3["state"]),
             expected=m3["expected"], observed=m3["observed"])
@@ -101,7 +131,7 @@ def classify(run: Run, G, sess, what_prefix=""):
 
 def correspond(run: Run, name, sessions, metas):
     cases = [s.coq_case() for s in sessions]
-    bad = run.vm_bad_indices(name, HEADER, CASE_TYPE, cases, f"(check_case {'true' if FX else 'false'})", shard=150)
+    bad = run.vm_bad_indices(name, HEADER, CASE_TYPE, cases, checker(), shard=150)
     # localise the first disagreeing operation on the shortest disagreeing histories only (each bisection step is a coqc call)
     todo = sorted(bad or [], key=lambda i: len(sessions[i].records))
     if len(todo) > 6:
@@ -115,7 +145,7 @@ def correspond(run: Run, name, sessions, metas):
 
         def prefix_bad(n):
             s2 = T.run_ops(G, ops[:n], fx=FX, oracle=False)
-            r = run.vm_bad_indices(name + "_loc", HEADER, CASE_TYPE, [s2.coq_case()], f"(check_case {'true' if FX else 'false'})")
+            r = run.vm_bad_indices(name + "_loc", HEADER, CASE_TYPE, [s2.coq_case()], checker())
             return bool(r)
         while lo < hi:
             mid = (lo + hi) // 2
@@ -160,6 +190,7 @@ def toy_histories(run: Run, n_hist):
         rng = run.rng("toy", h)
         malformed = rng.random() < 0.3
         G = T.gen_graph(rng)
+        G.nonfinite = G.dtype == "float64" and rng.random() < 0.5   # +-inf among the assigned values (NaN follows from inf - inf)
         try:
             G.build()
         except Exception as e:  # a generated graph leaspy refuses: not a case
@@ -168,6 +199,10 @@ def toy_histories(run: Run, n_hist):
         s = T.gen_history(rng, G, malformed=malformed, fx=FX)
         ops = [r[0] for r in s.records]
         count_f1_shape(run, s, f1)
+        run.count("values", "float64 with +-inf/NaN" if G.nonfinite else G.dtype + " finite")
+        if s.nonfinite_masks:
+            run.count("partial_reverts_over_nonfinite_cached_values", "histories")
+            run.count("partial_reverts_over_nonfinite_cached_values", "reverts", s.nonfinite_masks)
         sessions.append(s)
         metas.append(dict(stream="malformed" if malformed else "valid", case=h))
         run.case(("toy", json.dumps(G.to_json(), sort_keys=True), json.dumps(ops)), nontrivial=T.nontrivial(ops))
@@ -212,6 +247,45 @@ def directed(run: Run):
         run.broken("oracle:F1-history", f"un-repaired __setitem__ recognised but the F1 history read {last} after revert -> {revert_out}", kind="broken-correspondence")
     correspond(run, "f1", [s], [dict(stream="directed-F1", case=0)])
     run.sample(dict(kind="history of the former finding F1 on the real State", ops=T.F1_OPS, revert=revert_out, last_read=last))
+
+
+def directed_nonfinite(run: Run):
+    """y = log2 x per individual; x = [1,2]; read y; x += [-2,2]; read y = [NaN,2]; reject individual 0; read y.  Since fe0cadd the
+    selection leaves y = [0,2] (fresh for x = [1,4]); before, the blend left y = [NaN,2] (finding F2 of C02, here a stale read).
+    Then every mask on that history and on an affine one with inf."""
+    G = T.F2_GRAPH
+    G.build()
+    s = T.run_ops(G, T.F2_OPS, fx=FX)
+    run.case(("directed", "F2"), nontrivial=True)
+    last = s.records[-1][1]
+    run.extra["F2_history_on_this_tree"] = dict(ops=T.F2_OPS, last_read=last, since_fe0cadd=["ok", [0, 2]], before_fe0cadd=["ok", ["nan", 2]])
+    n0 = len(run._fails)
+    classify(run, G, s)
+    if MIX != CLAIMED_MIX and len(run._fails) == n0:
+        run.broken("oracle:F2-history", f"blending State.revert recognised but the F2 history read {last}", kind="broken-correspondence")
+    sessions, metas = [s], [dict(stream="directed-F2", case=0)]
+    G2 = T.ToyGraph([dict(name="x", kind="ind", parents=[]), dict(name="p", kind="pop", parents=[]),
+                     dict(name="c", kind="linked", parents=["x", "p"], fun=["affine", 1, [2, -3]]),
+                     dict(name="t", kind="linked", parents=["c"], fun=["sum", 0, [1]])], 2, "float64")
+    G2.build()
+    for mask in ([True, False], [False, True], [True, True], [False, False]):
+        for tgt in (["inf", 3], [4, "-inf"], ["inf", "-inf"]):
+            ops = [["mode", 0, "COPY"], ["set", 0, "p", 1], ["set", 0, "x", [1, 2]], ["get", 0, "c"], ["set", 0, "x", tgt], ["get", 0, "c"],
+                   ["revmask", 0, mask], ["get", 0, "c"], ["get", 0, "t"]]
+            s2 = T.run_ops(G2, ops, fx=FX)
+            run.case(("directed", "inf", tuple(mask), tuple(tgt)), nontrivial=True)
+            classify(run, G2, s2)
+            sessions.append(s2)
+            metas.append(dict(stream="directed-inf", case=len(sessions)))
+        for tgt in ([-1, 4], [0, 8], [4, -2]):
+            ops = T.F2_OPS[:3] + [["set", 0, "x", tgt], ["get", 0, "y"], ["revmask", 0, mask], ["get", 0, "y"]]
+            s2 = T.run_ops(G, ops, fx=FX)
+            run.case(("directed", "log", tuple(mask), tuple(tgt)), nontrivial=True)
+            classify(run, G, s2)
+            sessions.append(s2)
+            metas.append(dict(stream="directed-log", case=len(sessions)))
+    correspond(run, "nonfinite", sessions, metas)
+    run.sample(dict(kind="partial revert over a NaN discarded side on the real State", ops=T.F2_OPS, last_read=last))
 
 
 def exhaustive_diamond(run: Run, max_len):
@@ -350,6 +424,9 @@ def main(run: Run):
         "WF g: ancestors/children delivered by dag.py are the transitive closures in topological order (C15); recomputed by wf_b on every graph of the tie",
         "F_mix: node functions of per-individual nodes act row by row (C07); only used for histories containing a partial revert",
         "Disciplined: partial reverts only while every doubly cached node of the forked sub-graph carries the individual axis (documented precondition)",
+        "State.revert(subset) selects with torch.where (Coq instance xsem_where of the tie and of the examples): "
+        + ("recognised on the tree under test (source shape + probes)" if MIX == CLAIMED_MIX else
+           "NOT the case on the tree under test — tie made against xsem (blend)"),
         "State.__setitem__ drops _last_fork on an assignment made with auto_fork_type=None (model flag fx = true, State/StateNow.v): "
         + ("recognised on the tree under test (source shape + probes)" if FX == CLAIMED_FX else
            "NOT the case on the tree under test — tie made against fx = false, the theorems do not apply"),
@@ -357,6 +434,7 @@ def main(run: Run):
     run.trusted += ["harness/props/state_toy.py: toy-graph builder, executor and canonicalisation of results (exact integers / inf / nan)",
                     "torch element-wise kernels, index_put, deepcopy (modelled, not verified)"]
     directed(run)
+    directed_nonfinite(run)
     toy_histories(run, 6000 if thorough else 1500)
     if thorough:
         exhaustive_diamond(run, 3)
@@ -378,8 +456,9 @@ def replay(run: Run, path: str):
     if "graph" not in inp:
         print("replay: no toy history recorded in this file (broken obligation or shipped-model history); re-running the check")
         return main(run)
-    fx = settle_variant(run)
+    fx, mix = settle_variant(run)
     print(f"State.__setitem__ of this tree: {run.extra['setitem_variant']}")
+    print(f"State.revert(subset) of this tree: {run.extra['revert_mix_variant']}")
     G = T.ToyGraph.from_json(inp["graph"])
     G.build()
     s = T.run_ops(G, inp["ops"], fx=FX)
@@ -388,9 +467,12 @@ def replay(run: Run, path: str):
     bad = [m for m in s.mismatches if "mask" not in m["taint"]]
     for m in bad[:3]:
         print(f"STALE after step {m['step']}: state {m['state']} node {m['node']}: read {m['observed']} but a fresh state gives {m['expected']}")
-    r = run.vm_bad_indices("replay", HEADER, CASE_TYPE, [s.coq_case()], f"(check_case {'true' if FX else 'false'})")
-    print(f"model (fx = {'true' if FX else 'false'}) agrees with the implementation on this history:", r == [])
+    r = run.vm_bad_indices("replay", HEADER, CASE_TYPE, [s.coq_case()], checker())
+    print(f"model (fx = {'true' if FX else 'false'}, {SEM[MIX]}) agrees with the implementation on this history:", r == [])
     if fx != CLAIMED_FX:
         print("the theorems of Props/C01.v are about fx = true: they do not speak about this tree")
-    print("REPLAY", "FAILS" if (bad or r or fx != CLAIMED_FX) else "passes")
-    return 1 if (bad or r or fx != CLAIMED_FX) else 0
+    if mix != CLAIMED_MIX:
+        print("the tie of Props/C01.v is made with xsem_where: this tree does not select in State.revert(subset)")
+    wrong = bool(bad or r or fx != CLAIMED_FX or mix != CLAIMED_MIX)
+    print("REPLAY", "FAILS" if wrong else "passes")
+    return 1 if wrong else 0
